@@ -34,7 +34,7 @@ class Ctx:
         return g
 
     def register(self, name, t):
-        if torch.is_floating_point(t) and self.grad is not None and name in self.grad:
+        if torch.is_floating_point(t) and self.grad is not None and (self.grad == "all" or name in self.grad):
             t.requires_grad_(True)
         self.leaves[name] = t
         return t
